@@ -495,14 +495,56 @@ func (vc *VC) binop(st *State, op token.Token, a, b Val, ta, tb types.Type) Val 
 				return mk("div", IntSort, x, IntBig(pow2(y.Int.Int64())))
 			}
 			return App("int.shr", IntSort, x, y)
-		case token.AND:
-			return App("int.and", IntSort, x, y)
-		case token.OR:
-			return App("int.or", IntSort, x, y)
-		case token.XOR:
-			return App("int.xor", IntSort, x, y)
-		case token.AND_NOT:
-			return App("int.andnot", IntSort, x, y)
+		case token.AND, token.OR, token.XOR, token.AND_NOT:
+			// signed integers used as bit sets: exact when one operand is a small non-negative constant
+			// (bit b of x is (x div 2^b) mod 2, also for negative x in two's complement)
+			v, c := x, y
+			if op != token.AND_NOT && x.IsConst && !y.IsConst {
+				v, c = y, x
+			}
+			if c.IsConst && c.Int.Sign() >= 0 && c.Int.BitLen() <= 40 && !(op == token.AND_NOT && x.IsConst && !y.IsConst) {
+				if v.IsConst {
+					r := new(big.Int)
+					switch op {
+					case token.AND:
+						r.And(v.Int, c.Int)
+					case token.OR:
+						r.Or(v.Int, c.Int)
+					case token.XOR:
+						r.Xor(v.Int, c.Int)
+					default:
+						r.AndNot(v.Int, c.Int)
+					}
+					return IntBig(r)
+				}
+				bit := func(b int) *Term {
+					return mk("mod", IntSort, mk("div", IntSort, v, IntBig(pow2(int64(b)))), IntC(2))
+				}
+				var sum *Term = IntC(0)
+				for b := 0; b < c.Int.BitLen(); b++ {
+					if c.Int.Bit(b) == 0 {
+						continue
+					}
+					w := IntBig(pow2(int64(b)))
+					switch op {
+					case token.AND, token.AND_NOT:
+						sum = Add(sum, Mul(bit(b), w))
+					case token.OR:
+						sum = Add(sum, Mul(Sub(IntC(1), bit(b)), w))
+					case token.XOR:
+						sum = Add(sum, Mul(Sub(IntC(1), Mul(IntC(2), bit(b))), w))
+					}
+				}
+				switch op {
+				case token.AND:
+					return sum
+				case token.AND_NOT:
+					return Sub(v, sum)
+				default:
+					return Add(v, sum)
+				}
+			}
+			return App("int."+op.String(), IntSort, x, y)
 		}
 	case x.Sort == FloatSort:
 		switch op {
@@ -993,7 +1035,7 @@ func (vc *VC) rangeInit(fx *FuncCtx, x *ssa.Range, st *State, fr *Frame) Val {
 		vc.nextCell++
 		sid := vc.nextCell
 		st.cells[sid] = ConstArray(ArraySort(keySortOf(mt), BoolSort), False())
-		it.Seen = &PtrV{Kind: PCell, Cell: sid, Elem: types.Typ[types.Int]}
+		it.Seen = &PtrV{Kind: PCell, Cell: sid, Elem: ghostType{ArraySort(keySortOf(mt), BoolSort)}}
 		if fx.locals != nil {
 			fx.locals["#seen"] = it.Seen
 		}
